@@ -35,7 +35,7 @@ LEVEL_NOTE = ("Trusted: transport model, virtual clock.  Requests after a transp
 TECHNIQUE = "deterministic simulation of request histories with scripted per-request fault sequences"
 
 TYPES = ["ok", "drops_ok", "exhaust", "drops_exc", "senderr", "icmp", "rst", "fin", "refused", "drops_sockerr",
-         "stray_frag", "senderr_all"]
+         "stray_frag", "senderr_all", "garbage_ok", "unreach", "drops_unreach"]
 SETTINGS = [(0.5, 1), (1.0, 3), (0.25, 2)]
 SWEEP_LEN = {"quick": 2, "thorough": 3}
 N_RANDOM = {"quick": 25_000, "thorough": 1_000_000}
@@ -48,8 +48,11 @@ _SPACE = {}
 
 def _types_for(tr):
     if tr == "udp":
-        return [t for t in TYPES if t not in ("rst", "fin", "refused")]
+        return [t for t in TYPES if t not in ("rst", "fin", "refused", "unreach", "drops_unreach")]
     return [t for t in TYPES if t not in ("icmp", "drops_sockerr")]
+
+
+UDP_EXCLUDED = ("rst", "fin", "refused", "unreach", "drops_unreach")
 
 
 def _space(tier):
@@ -70,6 +73,11 @@ def _space(tier):
             for (tau, r) in EP_GRID:
                 for tr in ("udp", "tcp"):
                     cases.append(("connect", fam, tau, r, tr))
+        for fam in FAMILIES:
+            for i, (tau, r) in enumerate(EP_GRID):
+                tau2, r2 = EP_GRID[(i + 2) % len(EP_GRID)]
+                for tr in ("udp", "tcp"):
+                    cases.append(("connect2", fam, tau, r, tr, tau2, r2))
         for (tau, r) in EP_GRID:
             for answering in ("none", "ET", "DT", "ES", "AA55+ET"):
                 cases.append(("discover", tau, r, answering))
@@ -92,6 +100,10 @@ def _mkreq(rnd, typ, tau, r, tr, think=None, newloop=False):
          "newloop": newloop}
     if typ in ("drops_ok", "drops_exc"):
         q["k"] = rnd.randint(0 if typ == "drops_exc" else 1, r) if r > 0 else 0
+    if typ == "drops_unreach":
+        q["k"] = rnd.randint(1, r) if r > 0 else 0
+    if typ in ("unreach", "drops_unreach"):
+        q["errno"] = rnd.choice([113, 101])
     if typ == "drops_sockerr":
         q["k"] = rnd.randint(1, r) if r > 0 else 0
         q["errno"] = rnd.choice([101, 24])
@@ -126,6 +138,9 @@ def make_case(tier, seed, index):
                     "level": "execute" if index % 2 == 0 else "inverter", "reqs": reqs}
         if c[0] == "connect":
             return {"kind": "connect", "family": c[1], "timeout": c[2], "retries": c[3], "transport": c[4]}
+        if c[0] == "connect2":
+            return {"kind": "connect", "family": c[1], "timeout": c[2], "retries": c[3], "transport": c[4],
+                    "second": [c[5], c[6]]}
         if c[0] == "discover":
             return {"kind": "discover", "timeout": c[1], "retries": c[2], "answering": c[3]}
         return {"kind": "search", "answer_at": c[1]}
@@ -198,6 +213,16 @@ def _script(q, tau, r, tr):
         return [{"k": "drop", "then": [{"ev": t, "d": q["d"]}]}], ok, [], None
     if t == "refused":
         return [], ok, [{"k": "refused", "d": 0.0}], None
+    if t == "garbage_ok":
+        # an invalid datagram/segment in the middle of the wait, then (after the immediate retry on UDP / the
+        # rejection on TCP) everything is answered
+        return [{"k": "garbage", "n": 12, "seed": 7, "d": tau / 4}], ok, [], None
+    if t == "unreach":
+        return [], ok, [{"k": "unreach", "d": 0.0, "errno": q["errno"]}], None
+    if t == "drops_unreach":
+        # k lost transmissions (each timeout closes the TCP connection), then every reconnect fails as unreachable
+        k = min(q["k"], r)
+        return [drop] * k, ok, [ok] + [{"k": "unreach", "d": 0.0, "errno": q["errno"]}] * (r + 2), None
     if t == "drops_sockerr":
         # k lost transmissions, then creating the socket for the next retry fails (keep-alive off: every retry
         # opens a new socket; with keep-alive the socket is reused and the script degenerates to k drops then ok)
@@ -364,6 +389,11 @@ def run_connect(case):
     async def main():
         state["rec"] = await C.do_call(world, "connect", lambda: goodwe.connect(
             C.HOST, C.port_of(tr), fam, 0, tau, r))
+        if case.get("second"):
+            # a SECOND object for the same endpoint, configured differently, in the same process
+            state["tx_second"] = world.net.n_tx
+            state["rec2"] = await C.do_call(world, "connect2", lambda: goodwe.connect(
+                C.HOST, C.port_of(tr), fam, 0, case["second"][0], case["second"][1]))
 
     status, _ = C.run_world(world, main())
     violations = []
@@ -371,6 +401,19 @@ def run_connect(case):
     if status != "ok":
         violations.append(viol(f"C05:hang:connect:{fam}", f"connect() did not terminate: {status}"))
     rec = state.get("rec")
+    if case.get("second") and state.get("rec2") is not None:
+        t2, r2 = case["second"]
+        g2 = txs[state["tx_second"]:]
+        txs = txs[:state["tx_second"]]
+        sub = []
+        if g2:
+            check_group(sub, g2, t2, r2, tr, state["rec2"]["t1"], state["rec2"]["outcome"], {"tx": r2 + 1, "outcome": "failed"},
+                        "entry", f"second connect({fam}, timeout={t2}, retries={r2}) after connect(timeout={tau}, retries={r})")
+        else:
+            sub.append(viol("x:after=entry", "second connect() transmitted nothing"))
+        for v in sub:
+            v["key"] = "C05:entry:connect-second-object:" + v["key"].split(":")[1]
+        violations.extend(sub)
     groups = _groups(txs, tr)
     if rec is not None:
         if len(groups) != 1:
